@@ -251,6 +251,9 @@ def wired_rhs(repo, kind, static, incomp, l=None):
         raise
     if sorted(dyp.store) != list(range(2 * nys)):
         raise AnalysisError(f'{cname}.diffeq (built by cf_build_solver) writes dy slots {sorted(dyp.store)}')
+    if any(not isinstance(v_, X.Node) for v_ in dyp.store.values()):
+        # with cdivision the division by a property that still holds its initial zero goes through and leaves an infinity / NaN in the derivative
+        raise WiringProblem(f'{cname}.diffeq produces an undefined derivative: a material property the equations divide by is still its initial zero (not refreshed by update_interp)', cname, mo.where(de[1]))
     dy = []
     for k in range(nys):
         a, b = dyp.store[2 * k], dyp.store[2 * k + 1]
